@@ -415,7 +415,7 @@ func (cs *supply) AllocateCPU(r Request) (Grant, error) {
 		}
 
 	case full > 0 && cs.AllocatableSharedCPU() > 1000*full:
-		exclusive, err = cs.takeCPUs(&cs.sharable, nil, full, cr.CPUPrio())
+		exclusive, err = cs.sliceExclusiveCPUs(full, cr.CPUPrio())
 		if err != nil {
 			return nil, policyError("internal error: "+
 				"%s: can't take %d exclusive CPUs from %s: %v",
@@ -522,6 +522,58 @@ func (cs *supply) takeCPUs(from, to *cpuset.CPUSet, cnt int, prio cpuPrio) (cpus
 	}
 
 	return cset, err
+}
+
+// sliceExclusiveCPUs takes cnt exclusive CPUs off the sharable set of this pool.
+// The sharable CPUs of a pool are also the sharable CPUs of the pools below it, so
+// the slice must leave every pool in the subtree enough CPUs for the shared capacity
+// granted there. The CPUs those pools need are withheld from the choice.
+func (cs *supply) sliceExclusiveCPUs(cnt int, prio cpuPrio) (cpuset.CPUSet, error) {
+	needed := cpuset.New()
+	for _, c := range cs.node.Children() {
+		needed = needed.Union(cs.neededSharableCPUs(c))
+	}
+	from := cs.sharable.Difference(needed)
+	if from.Size() < cnt {
+		return cpuset.New(), policyError("%s: %d sharable CPUs wanted, the pools below can spare %d (%s)",
+			cs.node.Name(), cnt, from.Size(), from)
+	}
+	cset, err := cs.takeCPUs(&from, nil, cnt, prio)
+	if err != nil {
+		return cset, err
+	}
+	cs.sharable = cs.sharable.Difference(cset)
+	return cset, nil
+}
+
+// neededSharableCPUs picks, for the subtree of the given pool, sharable CPUs that must
+// stay sharable: in every pool as many as the shared capacity granted in its subtree
+// takes, and at least one if a container runs on the pool's shared CPUs. The CPUs
+// picked for the pools below count for the pools above them.
+func (cs *supply) neededSharableCPUs(n Node) cpuset.CPUSet {
+	needed := cpuset.New()
+	for _, c := range n.Children() {
+		needed = needed.Union(cs.neededSharableCPUs(c))
+	}
+	free := n.FreeSupply().SharableCPUs()
+	need := (n.GrantedSharedCPU() + 999) / 1000
+	if need == 0 {
+		for _, g := range cs.node.Policy().allocations.grants {
+			if g.GetCPUNode().IsSameNode(n) && g.CPUType() == cpuNormal &&
+				(g.ExclusiveCPUs().IsEmpty() || g.SharedPortion() > 0) {
+				need = 1
+				break
+			}
+		}
+	}
+	if have := needed.Intersection(free).Size(); have < need {
+		extra := free.Difference(needed).List()
+		if len(extra) > need-have {
+			extra = extra[:need-have]
+		}
+		needed = needed.Union(cpuset.New(extra...))
+	}
+	return needed
 }
 
 // DumpCapacity returns a printable representation of the supply's resource capacity.
